@@ -892,7 +892,14 @@ def rule_columns_redirect_keeps_scope(ctx):
     ctx.floor("C09.l redirect cases", n, 5)
 
 
+def rule_show_uses_current_context(ctx):
+    """C09.o = C03.h: SHOW reports the catalog of the session's *current* database, also on a cursor made before a USE."""
+    from .c03 import rule_context_read_at_statement_time
+    rule_context_read_at_statement_time(ctx)
+
+
 RULES = [
+    ("C09.o", rule_show_uses_current_context, ("quick", "thorough")),
     ("C09.l", rule_columns_redirect_keeps_scope, ("quick", "thorough")),
     ("C09.g", rule_precision_pattern, ("quick", "thorough")),
     ("C09.f", rule_no_phantom_comment, ("quick", "thorough")),
